@@ -46,11 +46,11 @@ From AC.gen Require Import StateFields StoreSites.
 From AC.proofs Require Import GenFactsOK.
 Import ListNotations." \
   state_fields_nodup reset_fields_subset reset_fields_maybe_empty reset_guards_are_off_season reset_fields_covered reset_weather_guard_ok reset_crop_fields_whitelisted carried_fields_whitelisted carried_fields_whitelisted_strict thini_never_written ;;&
-C10|all) $MK C10 "C10 — runs are deterministic and model instances are isolated (the part a theorem can carry): no store site of the package writes a module-level object, a default-argument object or a class attribute (store-site table regenerated from /repo's source on every run)." "From Coq Require Import String List Bool.
-From AC.gen Require Import StateFields StoreSites.
+C10|all) $MK C10 "C10 — runs are deterministic and model instances are isolated (the part a theorem can carry): no store site of the package writes a module-level object, a default-argument object or a class attribute (store-site table regenerated from /repo's source on every run); the only constructs anywhere in the package whose value or iteration order can depend on the hash seed, the process, the clock or the environment are five enumerated, harmless ones (order_sources_exact over the regenerated OrderSources table)." "From Coq Require Import String List Bool.
+From AC.gen Require Import StateFields StoreSites OrderSources.
 From AC.proofs Require Import GenFactsOK.
 Import ListNotations." \
-  stores_allowed stores_allowed_In no_store_on_module_globals global_store_sites_exact no_store_on_default_args escaped_defaults_never_written_in_place table_sizes ;;&
+  stores_allowed stores_allowed_In no_store_on_module_globals global_store_sites_exact no_store_on_default_args escaped_defaults_never_written_in_place table_sizes order_sources_exact ;;&
 C12|all) $MK C12 "C12 — configured parameters and weather stay read-only while stepping: no store site in aquacrop.solution.* / aquacrop.timestep.* is rooted at the profile, soil, management, groundwater, weather or clock-date objects (enumerated exceptions: season-start crop calendar/CO2, clock counters); store-site table regenerated from /repo on every run." "From Coq Require Import String List Bool.
 From AC.gen Require Import StateFields StoreSites.
 From AC.proofs Require Import GenFactsOK.
